@@ -17,6 +17,7 @@ import threading
 mon = sys.monitoring
 TOOL = mon.DEBUGGER_ID
 _SETUP = False
+_DONE = None
 SCHED = None
 
 
@@ -32,6 +33,8 @@ class Sched:
         self.trace = []  # realised preemptions: (k, label, from, to)
         self.active = False
         self.blocked = set()
+        self.by_label = None
+        self.seen = {}
 
     def me(self):
         return self.tid.get(threading.get_ident())
@@ -45,6 +48,12 @@ class Sched:
         k = self.k
         self.k += 1
         tgt = self.preempt.get(k)
+        if self.by_label is not None:
+            # replay mode: preempt at the n-th occurrence of a label (robust against shifts of
+            # unrelated switch points between processes)
+            n = self.seen.get(label, 0)
+            self.seen[label] = n + 1
+            tgt = self.by_label.get((label, n))
         if tgt is not None and tgt != i and tgt < self.n and not self.done[tgt]:
             self.trace.append((k, label, i, tgt))
             self._switch(i, tgt)
@@ -150,10 +159,26 @@ def _on_instr(code, off):
         s.point((code.co_name, off))
 
 
-def _on_line(code, line):
+LINE_CODES = set()
+LINE_FILES = set()
+
+
+def _on_line(code, line, _codes=LINE_CODES, _files=LINE_FILES, _disable=mon.DISABLE):
+    # (defaults bound early: the callback may still fire during interpreter shutdown)
+    if code not in _codes and code.co_filename not in _files:
+        return _disable
     s = SCHED
     if s is not None:
         s.point((code.co_name, "L%d" % line))
+
+
+def teardown():
+    """Switch the global LINE events off again (end of a shard / interpreter exit)."""
+    if _SETUP:
+        try:
+            mon.set_events(TOOL, 0)
+        except Exception:
+            pass
 
 
 def setup(extra_line_functions=()):
@@ -165,6 +190,9 @@ def setup(extra_line_functions=()):
     import ptera.selector  # noqa
     import ptera.transform  # noqa
 
+    global _DONE
+    if _DONE is not None:
+        return _DONE
     T = sys.modules["ptera.transform"]
     O = sys.modules["ptera.overlay"]
     P = sys.modules["ptera.probe"]
@@ -190,7 +218,17 @@ def setup(extra_line_functions=()):
     for fn in instr:
         mon.set_local_events(TOOL, fn.__code__, mon.events.INSTRUCTION)
     for fn in list(line) + list(extra_line_functions):
+        LINE_CODES.add(fn.__code__)
         mon.set_local_events(TOOL, fn.__code__, mon.events.LINE)
+    # line-level switch points inside the functions under test, *including* the instrumented
+    # variants ptera compiles for them (same file name): global LINE events filtered by file
+    from vlib import family
+
+    LINE_FILES.add(family.fa.__code__.co_filename)
+    mon.set_events(TOOL, mon.events.LINE)
+    import atexit
+
+    atexit.register(teardown)
     # cooperative replacement of module-level locks
     LockT = (type(threading.Lock()), type(threading.RLock()))
     replaced = {}
@@ -201,4 +239,5 @@ def setup(extra_line_functions=()):
                 if id(v) not in replaced:
                     replaced[id(v)] = CoopLock()
                 setattr(m, k, replaced[id(v)])
-    return len(replaced)
+    _DONE = len(replaced)
+    return _DONE
